@@ -188,6 +188,13 @@ impl Prop for C02 {
                     timeout: Duration::from_secs(60),
                     what: "histories of <= 3 registrations of one infix operator over 6 (precedence, associativity) pairs, each in a fresh process, with and without the re-registrations being made by another (joined) thread; after every step every tree of <= 3 infix nodes over {xop, *, +, in} (minimal and full parentheses) must parse to itself under the table of that moment".into(),
                 },
+                Stage {
+                    name: "deep".into(),
+                    len: super::c03::deep_cases().len() as u64,
+                    chunk: 40,
+                    timeout: Duration::from_secs(600),
+                    what: "19 chain / nesting shapes at sizes around 16, 32, 64, 128, 256, 512, 1024: the engine's AST must equal the reference parser's".into(),
+                },
             ],
             rule: format!(
                 "(a) every AST with <= {} infix nodes over all 32 built-in infix operators in every shape, plus every AST with <= 3 operator nodes over 15 representative infix operators, `not OP`, prefix, postfix, conditional, call, list, map, and two-statement chains; \
@@ -235,6 +242,31 @@ impl Prop for C02 {
             out.count("transitions", 2 * (b - a));
             return;
         }
+        if stage == 3 {
+            let cases = super::c03::deep_cases();
+            for i in a..b {
+                out.at(i);
+                let c = &cases[i as usize];
+                let want = match parse::parse(&c.program, &ops) {
+                    Ok(w) => w,
+                    Err(e) => {
+                        out.fail("generator:deep-program-rejected-by-model", format!("deep|{}", c.key), format!("{:?}", e));
+                        continue;
+                    }
+                };
+                let mut tmp = WorkerOut::default();
+                compare(&c.program, &want, &ops, "deep", &mut tmp);
+                let fails = std::mem::take(&mut tmp.fails);
+                out.merge(tmp);
+                for (k, (f, _)) in fails {
+                    out.fail(format!("{}:{}", k.split(':').next().unwrap_or(""), c.key.split(':').take(2).collect::<Vec<_>>().join(":")), format!("deep|{}", c.key), f.detail.chars().take(300).collect::<String>());
+                }
+                out.nontrivial.insert(hash64(&c.key));
+            }
+            out.count("states", b - a);
+            out.count("transitions", b - a);
+            return;
+        }
         if stage == 2 {
             let hs = super::c12::rereg_histories();
             for i in a..b {
@@ -268,6 +300,9 @@ impl Prop for C02 {
         if stage == 0 {
             let ops = OpSet::builtin();
             return show(&parse::print(&programs(tier)[i as usize], &ops, Parens::Minimal));
+        }
+        if stage == 3 {
+            return super::c03::deep_cases()[i as usize].key.clone();
         }
         if stage == 2 {
             let hs = super::c12::rereg_histories();
